@@ -532,7 +532,7 @@ func runC10(tierName string) int {
 			}
 		}
 		min, runs := f.spec, 0
-		if f.spec.Variant == "sim" {
+		if f.spec.Variant == "sim" && os.Getenv("VERIF_NO_SHRINK") == "" {
 			min, runs = c.shrinkHistory(f.spec, F, classes, f.v.Class, 400)
 		}
 		res := c.runSpec(min)
@@ -556,7 +556,7 @@ func runC10(tierName string) int {
 				}
 			}
 		}
-		if exact && note == "" { // minimise the programs too (statement lines), then confirm once more
+		if exact && note == "" && os.Getenv("VERIF_NO_SHRINK") == "" { // minimise the programs too (statement lines), then confirm once more
 			linesBefore := 0
 			for li, s := range min.Script.Sources {
 				if used[li] {
